@@ -70,6 +70,7 @@ func profileFor(prop string, tier string) *Profile {
 	case "C07", "C08", "C09":
 		p.W = map[string]int{"wrk": 30, "bcn": 30, "gov": 4, "multi": 6, "nest": 3, "bank": 1}
 		p.Dt = dtShort
+		p.Export, p.ExportPct = true, 4
 		if prop == "C08" {
 			p.MaxTx = 12
 			p.Export = true
@@ -105,6 +106,7 @@ func profileFor(prop string, tier string) *Profile {
 		p.Dt = dtShort
 	case "C18":
 		p.Queries = 2
+		p.Export, p.ExportPct = true, 2
 	case "C20":
 		p.Queries = 4
 		p.MaxTx = 10
@@ -258,7 +260,7 @@ func NewRun(prop string, seed int64, tier string) (*Trace, *Gen) {
 	} else if g.pct(25) {
 		k.StartPO, k.StartWrk, k.StartBeacon = 1000, 4294967295, 256
 	}
-	if prop == "C15" && (tier == "thorough" && g.pct(10) || tier != "thorough" && g.pct(4)) || prop == "C08" && (tier == "thorough" && g.pct(6) || tier != "thorough" && g.pct(2)) {
+	if prop == "C15" && (tier == "thorough" && g.pct(10) || tier != "thorough" && g.pct(4)) || (prop == "C08" || prop == "C18" || prop == "C07") && (tier == "thorough" && g.pct(6) || tier != "thorough" && g.pct(2)) {
 		// a registration with more records than an export carries, injected through genesis
 		k.BigReg = &BigReg{Kind: pick(r, []string{"wrk", "bcn"}), N: ExportCap + uint64(pick(r, []int{1, 2, 5, 300}))}
 		if k.StartWrk < 2 {
@@ -294,6 +296,12 @@ func NewRun(prop string, seed int64, tier string) (*Trace, *Gen) {
 	if prop == "C02" && g.pct(3) {
 		k.UnbackedLocked = pick(r, []string{"1", "123456789", "1000000000000000000000"})
 		t.Flags = append(t.Flags, "unbacked-genesis")
+	}
+	if (prop == "C09" || prop == "C15") && g.pct(3) {
+		// more registrations than any paged helper returns at once, injected through genesis
+		k.ManyRegs = 101 + r.Intn(40)
+		k.StartWrk, k.StartBeacon = uint64(k.ManyRegs)+1, uint64(k.ManyRegs)+1
+		k.BigReg = nil
 	}
 	k.GovSecs = int64(10 + r.Intn(50))
 	if g.Flags["huge"] {
